@@ -103,6 +103,7 @@ class Normalizer:
     def __init__(self, cwd):
         self.cwd = os.path.realpath(cwd)
         self.tmp = {}            # raw /tmp/chibicc-XXXXXX -> t<n>
+        self.made = set()        # every /tmp/chibicc-* a process of this run opened for writing
 
     def mk(self, raw):
         if raw not in self.tmp:
@@ -219,6 +220,8 @@ def parse_strace(text, cwd):
             path = strs[0]
             flags = rest
             wr = call == "creat" or "O_WRONLY" in flags or "O_RDWR" in flags or "O_CREAT" in flags
+            if wr and ok and path.startswith("/tmp/chibicc-"):
+                norm.made.add(path)
             if isdrv:
                 if path.startswith("/tmp/chibicc-") and "O_EXCL" in flags and ok:
                     evs.append(dict(e="mkstemp", n=norm.mk(path)))
@@ -265,7 +268,7 @@ def parse_strace(text, cwd):
             if n == 98:
                 shim_trouble = True
             continue
-    return evs, dict(tmp=dict(norm.tmp), driver=driver, done=done, shim_trouble=shim_trouble)
+    return evs, dict(tmp=dict(norm.tmp), made=sorted(norm.made), driver=driver, done=done, shim_trouble=shim_trouble)
 
 
 # ------------------------------------------------------------------ one run
@@ -339,8 +342,11 @@ def run_driver(ctx, tree, shim, b, rundir, cwd, d=1, popen=False):
     return p.returncode, st
 
 
-def listing(cwd, orig, tmpmap):
+def listing(cwd, orig, tmpmap, made=()):
     """what is on disk afterwards, as [{p, c}]; removes this run's surviving temporaries"""
+    tmpmap = dict(tmpmap)
+    for raw in made:                       # created without O_EXCL (not a mkstemp event): still this run's litter
+        tmpmap.setdefault(raw, "stray-tmp")
     out = []
     for root, dirs, files in os.walk(cwd):
         for fn in files:
@@ -348,9 +354,15 @@ def listing(cwd, orig, tmpmap):
             data = open(os.path.join(root, fn), "rb").read()
             out.append(dict(p=rel, c=classify(data, orig.get(rel))))
     for raw, n in tmpmap.items():
-        if os.path.exists(raw):
-            out.append(dict(p=n, c=classify(open(raw, "rb").read(), None)))
+        try:                               # (a broken driver may share these names between concurrent runs)
+            data = open(raw, "rb").read()
+        except OSError:
+            continue
+        out.append(dict(p=n, c=classify(data, None)))
+        try:
             os.unlink(raw)
+        except OSError:
+            pass
     return sorted(out, key=lambda r: r["p"])
 
 
@@ -370,7 +382,7 @@ def run_case(ctx, tree, shim, inputs, b, idx, keep=False):
     evs, info = parse_strace(text, cwd)
     if info["shim_trouble"] or not info["done"]:
         raise Infra("run %s: shim/strace trouble (rc=%s): %s" % (beh_key(b), rc, open(rundir + "/stderr1", errors="replace").read()[-500:]))
-    evs.append(dict(e="final", fs=listing(cwd, orig, info["tmp"])))
+    evs.append(dict(e="final", fs=listing(cwd, orig, info["tmp"], info["made"])))
     res = dict(events=[reset_event(b, idx)] + evs, rc=rc, argv=argv_of(b), strace=None if not keep else text)
     if keep:
         res["stderr"] = open(rundir + "/stderr1", errors="replace").read()[-2000:]
@@ -400,7 +412,7 @@ def tlc_validate(ctx, events, label):
     return rej
 
 
-def ev_summary(mode, ev):
+def ev_summary(mode, ev, before=()):
     """classification of the first unexplained event: names the root-cause class"""
     def cls(p):
         if p == "-":
@@ -420,17 +432,19 @@ def ev_summary(mode, ev):
         return "run:w=%s:u=%s" % (",".join(cls(x) for x in ev["writes"]), ",".join(cls(x) for x in ev["unlinks"]))
     if k == "wait":
         return "wait:" + ev["status"]
-    if k == "exit":
-        return "exit:%d" % ev["code"]
+    if k == "exit":       # with how many of the temporaries made so far already unlinked
+        return "exit:%d:unlinked=%d/%d" % (ev["code"], len([1 for x in before if x["e"] == "unlink"]), len([1 for x in before if x["e"] == "mkstemp"]))
     if k == "unlink":
         return "unlink:" + cls(ev["p"])
+    if k == "drvopen":
+        return "drvopen:" + ("tmp-without-O_EXCL" if ev["p"].startswith("foreign:/tmp/chibicc-") else cls(ev["p"]))
     if k == "final":
         return "final:" + ",".join("%s=%s" % (r["p"] if not re.fullmatch(r"t\d+", r["p"]) else "tmp", r["c"]) for r in ev["fs"]
                                    if r["c"] not in ("src", "bad", "old"))
     return k
 
 
-def validate_runs(ctx, results, label, chunk=400):
+def validate_runs(ctx, results, label, chunk=120):
     """results: list of (behaviour, run_case result).  TLC judges; rejections are reported."""
     chunks = [results[j:j + chunk] for j in range(0, len(results), chunk)]
 
@@ -440,14 +454,15 @@ def validate_runs(ctx, results, label, chunk=400):
         for bi, (b, r) in enumerate(ch):
             evs += r["events"]
             owner += [bi] * len(r["events"])
-        return [(ch[owner[i]], evs[i], i) for i in tlc_validate(ctx, evs, "%s-%d" % (label, ci))], len(evs)
-    nrej = 0
-    for rejs, nev in vt.pmap(one, list(enumerate(chunks)), workers=4):
+        return [(ch[owner[i]], evs[i], ci * chunk + owner[i]) for i in tlc_validate(ctx, evs, "%s-%d" % (label, ci))], len(evs)
+    nrej = set()
+    for rejs, nev in vt.pmap(one, list(enumerate(chunks)), workers=6):
         ctx.cov.setdefault("trace_events", 0)
         ctx.cov["trace_events"] += nev
-        for (b, r), ev, i in rejs:
-            nrej += 1
-            sig = "trace:%s%s:%s" % (b["mode"], "+o" if b["o"] else "", ev_summary(b["mode"], ev))
+        for (b, r), ev, ri in rejs:
+            nrej.add(ri)
+            pos = [j for j, x in enumerate(r["events"]) if x is ev]
+            sig = "trace:%s%s:%s" % (b["mode"], "+o" if b["o"] else "", ev_summary(b["mode"], ev, r["events"][:pos[0]] if pos else ()))
             ctx.report(sig, "chibicc %s (inputs %s, fault %s/%s): recorded run is not a behaviour of Driver.tla at event %s; model expects calls %s, exit %s" % (
                 " ".join(r["argv"]), b["ins"], b["fault"], b["df"], ev, [(x["tool"], x["status"]) for x in b["log"]], b["code"]),
                 case=dict(kind="run", beh=b, rejected_event=ev, events=r["events"]))
@@ -483,7 +498,8 @@ def two_driver_case(ctx, tree, shim, inputs, b1, b2, idx):
                 if f in ev:
                     ev[f] = ["out1" if x == "out2" else x for x in ev[f]]
         out.append(dict(events=[reset_event(b, idx * 2 + d)] + evs, info=info, argv=argv_of(b, d)))
-    fin = listing(cwd, orig, dict(list(out[0]["info"]["tmp"].items()) + [(k, "u" + v) for k, v in out[1]["info"]["tmp"].items()]))
+    fin = listing(cwd, orig, dict(list(out[0]["info"]["tmp"].items()) + [(k, "u" + v) for k, v in out[1]["info"]["tmp"].items()]),
+                  out[0]["info"]["made"] + out[1]["info"]["made"])
     shutil.rmtree(rundir, ignore_errors=True)
     return out, fin
 
@@ -540,25 +556,31 @@ def run_pairs(ctx, tree, shim, inputs, pairs):
                         ctx.report("pair:P5:foreign-temporary-touched", "%s in %s" % (ev, o["argv"]), case=case)
                 if str(ev.get("p", "")).startswith("foreign:") or str(ev.get("out", "")).startswith("foreign:"):
                     ctx.report("pair:P5:foreign-temporary-touched", "%s in %s" % (ev, o["argv"]), case=case)
+        solo += [(b1, dict(events=out[0]["events"], argv=out[0]["argv"])), (b2, dict(events=out[1]["events"], argv=out[1]["argv"]))]
+    # each run of a pair must by itself be a behaviour of the model (TLC) ...
+    rejected = validate_runs(ctx, solo, "pair")
+    for pi, ((b1, b2), (out, fin)) in enumerate(zip(pairs, res)):
+        if 2 * pi in rejected or 2 * pi + 1 in rejected:
+            continue          # ... already reported there; its final state is a consequence
+        case = dict(kind="pair", b1=b1, b2=b2)
         # P1 / P4 / P5 on the final state
         exp = expected_two(b1, b2)
         got = {r["p"]: r["c"] for r in fin}
         for p in sorted(set(exp) | set(got)):
             g = got.get(p, "absent")
-            if re.fullmatch(r"u?t\d+", p):
+            if re.fullmatch(r"u?t\d+|stray-tmp", p):
                 ctx.report("pair:P1:temporary-left", "temporary of driver %s survives (%s) after %s | %s" % ("2" if p[0] == "u" else "1", g, out[0]["argv"], out[1]["argv"]), case=case)
             elif g not in exp.get(p, {"absent"}):
                 ctx.report("pair:final:%s=%s" % (re.sub(r"\d", "N", p), g), "after `%s` || `%s`: %s is %s, the model allows %s" % (
                     " ".join(out[0]["argv"]), " ".join(out[1]["argv"]), p, g, sorted(exp.get(p, {"absent"}))), case=case)
-        solo += [(b1, dict(events=out[0]["events"], argv=out[0]["argv"])), (b2, dict(events=out[1]["events"], argv=out[1]["argv"]))]
-    return solo
 
 
 def make_pairs(beh, seed, n):
     """pairs of behaviours in the same directory; at most one fault in total (as in the model)"""
     groups = {}
     for b in beh:
-        groups.setdefault((tuple(b["ins"]), b["pre"], b["df"]["t"], b["df"]["i"]), []).append(b)
+        # same directory = same files with the same contents (under -E every input holds C text)
+        groups.setdefault((tuple(b["ins"]), b["pre"], b["df"]["t"], b["df"]["i"], b["mode"] == "E"), []).append(b)
     pairs = []
     for g in sorted(groups):
         bs = groups[g]
@@ -575,20 +597,34 @@ CONTROLS = [("DoCleanup", False, "P1", 1), ("CheckWait", False, "P2", 1), ("Buff
             ("Pinned", True, "P4", 1), ("ExclTmp", False, "P5", 2)]
 
 
-def model_check(ctx, errors):
-    """two-driver interleavings + sensitivity controls (run beside the replay)"""
+def model_check2(ctx, errors):
+    """two drivers, all interleavings (runs beside the replay)"""
     try:
-        q = ctx.quick
-        cfg = ctx.cfg("driver", "Driver_mc2.cfg", MaxIn=1 if q else 2)
-        ctx.tlc_expect_ok("driver", "Driver", cfg, "two interleaved drivers violate P1-P5", workers=4, heap="6g", deque=True, timeout=1500)
-        for name, val, inv, nd in CONTROLS:
-            if nd == 1:
-                cfg = ctx.cfg("driver", "Driver_mc1.cfg", MaxIn=1, Emit=False, **{name: val})
-            else:
-                cfg = ctx.cfg("driver", "Driver_ctl2.cfg", **{name: val})
-            r = ctx.tlc("driver", "Driver", cfg, workers=2, count=False, deque=True)
-            if r.ok or r.violated != inv:
-                raise Infra("sensitivity control failed: model with %s=%s should violate %s, TLC says %s" % (name, val, inv, r.violated))
+        cfg = ctx.cfg("driver", "Driver_mc2.cfg", MaxIn=1 if ctx.quick else 2)
+        ctx.tlc_expect_ok("driver", "Driver", cfg, "two interleaved drivers violate P1-P5", workers=4, heap="6g", deque=True, timeout=2400)
+    except BaseException as e:
+        errors.append(e)
+
+
+def controls(ctx, errors):
+    """sensitivity: each deliberately wrong variant of the model must be rejected by TLC"""
+    def one(t):
+        name, val, inv, nd = t
+        if nd == 1:
+            cfg = ctx.cfg("driver", "Driver_mc1.cfg", name="ctl-" + name, MaxIn=1, Emit=False, **{name: val})
+        else:
+            cfg = ctx.cfg("driver", "Driver_ctl2.cfg", name="ctl-" + name, **{name: val})
+        r = ctx.tlc("driver", "Driver", cfg, workers=1, count=False, deque=True)
+        if r.ok or r.violated != inv:
+            raise Infra("sensitivity control failed: model with %s=%s should violate %s, TLC says %s" % (name, val, inv, r.violated))
+    def live(t):
+        nd, maxin = t
+        cfg = ctx.cfg("driver", "Driver_live.cfg", name="live%d" % nd, ND=nd, MaxIn=maxin)
+        ctx.tlc_expect_ok("driver", "Driver", cfg, "a driver does not terminate under fairness (or violates P1-P5)", workers=2, heap="6g", timeout=2400)
+    try:
+        vt.pmap(one, CONTROLS, workers=5)
+        # liveness: every driver terminates (WF on each driver's steps)
+        vt.pmap(live, [(1, 2)] if ctx.quick else [(1, 3), (2, 1)], workers=2)
     except BaseException as e:
         errors.append(e)
 
@@ -609,8 +645,9 @@ def run(ctx):
     inputs = Inputs(ctx)
     ctx.phase("build done")
     errors = []
-    th = threading.Thread(target=model_check, args=(ctx, errors))
-    th.start()
+    ths = [threading.Thread(target=f, args=(ctx, errors)) for f in (model_check2, controls)]
+    for th in ths:
+        th.start()
     # 1. one driver: all shapes x all single faults, P1..P5 + termination; emits the behaviours
     out = os.path.join(ctx.scratch, "beh.ndjson")
     g = ctx.tlc("driver", "Driver", "Driver_mc1.cfg", env=dict(OUT=out), workers=4, heap="6g", deque=True)
@@ -624,7 +661,7 @@ def run(ctx):
         raise Infra("generator wrote only %d behaviours" % len(beh))
     ctx.phase("mc1 done (%d behaviours)" % len(beh))
     # 2. replay a seed-selected subsample (quick) / everything (thorough) on the real driver
-    todo = vt.subsample(beh, ctx.seed, 6 if q else 1)
+    todo = vt.subsample(beh, ctx.seed, 8 if q else 1)
     results = vt.pmap(lambda t: run_case(ctx, tree, shim, inputs, t[1], t[0]), list(enumerate(todo)), workers=12)
     for b in todo:
         ctx.note_case(beh_key(b), nontrivial=b["fault"]["t"] != "none" or b["df"]["t"] != "none" or len(b["ins"]) > 1)
@@ -636,12 +673,12 @@ def run(ctx):
     validate_runs(ctx, list(zip(todo, results)), "solo")
     ctx.phase("trace validation done")
     # 4. two real drivers in one directory
-    pairs = make_pairs(beh, ctx.seed, 60 if q else 600)
-    solo = run_pairs(ctx, tree, shim, inputs, pairs)
-    validate_runs(ctx, solo, "pair")
+    pairs = make_pairs(beh, ctx.seed, 40 if q else 600)
+    run_pairs(ctx, tree, shim, inputs, pairs)
     ctx.sample(dict(kind="two concurrent drivers", a="chibicc " + " ".join(argv_of(pairs[0][0], 1)), b="chibicc " + " ".join(argv_of(pairs[0][1], 2))))
     ctx.phase("pairs done (%d)" % len(pairs))
-    th.join()
+    for th in ths:
+        th.join()
     if errors:
         raise errors[0]
     ctx.phase("mc2 + controls done")
@@ -674,6 +711,5 @@ def replay(ctx, path):
             print("   ", json.dumps(ev))
         validate_runs(ctx, [(c["beh"], r)], "replay")
     elif c.get("kind") == "pair":
-        solo = run_pairs(ctx, tree, shim, inputs, [(c["b1"], c["b2"])])
-        validate_runs(ctx, solo, "replay")
+        run_pairs(ctx, tree, shim, inputs, [(c["b1"], c["b2"])])
     return ctx.finish(rule="replay of one recorded case")
